@@ -170,13 +170,13 @@ Theorem C17_scale_covariant_Q : forall c : Qc, (0 < c)%Qc -> forall signal respo
 Proof. exact scale_covariant_Q_lemma. Qed.
 Print Assumptions C17_scale_covariant_Q.
 
-(* laws of the selection level are satisfiable too (the distinguished element `inf` is 0 in this instance:
-   the rationals have no +infinity fixed by scaling) *)
-Theorem C17_ls_scale_covariant_Q : forall c : Qc, (0 < c)%Qc -> forall signal response offs las,
-  ls_deconv Qc 0%Qc q_dec nn_greedy_q (map (Qcmult c) signal) response offs las =
-  res_map (map (Qcmult c)) (ls_deconv Qc 0%Qc q_dec nn_greedy_q signal response offs las).
-Proof. exact ls_scale_covariant_Q_lemma. Qed.
-Print Assumptions C17_ls_scale_covariant_Q.
+(* the laws of the selection level are satisfiable too: rationals extended by +infinity (None), so that
+   `inf` is a genuine infinity fixed by the scaling *)
+Theorem C17_ls_scale_covariant_Qinf : forall c : Qc, (0 < c)%Qc -> forall signal response offs las,
+  ls_deconv (option Qc) None o_ltb nn_greedy_o (map (o_scale c) signal) response offs las =
+  res_map (map (o_scale c)) (ls_deconv (option Qc) None o_ltb nn_greedy_o signal response offs las).
+Proof. exact ls_scale_covariant_Qinf_lemma. Qed.
+Print Assumptions C17_ls_scale_covariant_Qinf.
 
 (* (6) Isolated pulse.  Waveform: k zeros, then a * response cut to m samples, then t zeros (t > 0 only if
    the whole response fits): i.e. signal[j] = a * response[j - k] for k <= j < min(n, k + len response),
